@@ -33,29 +33,8 @@ def _calls(node, name):
     return [n for n in ast.walk(node) if isinstance(n, ast.Call) and (dotted(n.func) or "").split(".")[-1] == name]
 
 
-def run(ctx):
-    from checks.c10 import load
-
-    prog, S, M = load(ctx.repo)
-    ctx.level = "other"
-    ctx.trusted = ["CPython ast", "constant folding of the Default table", "zipfile writes the bytes it is given"]
-    ctx.explanation = (
-        "The round trip is decomposed into the tables and traversals it rests on: the Default/Override decision and its inverse "
-        "lookup, the visit-once idiom of the two generators, the field-by-field serialisation of relationships and the "
-        "pass-through of (name, type, payload) through the loader. Each is decided from the source; the behaviour itself "
-        "(byte identity) is not.")
-    ctx.not_decided = ["byte identity of non-XML payloads at run time", "XML equivalence of re-serialised parts",
-                       "idempotence of the second save", "posixpath arithmetic of relative references (C19)"]
-
-    ser = prog.modules.get("pptx.opc.serialized")
-    pk = prog.modules.get("pptx.opc.package")
-    spec = prog.modules.get("pptx.opc.spec")
-    ox = prog.modules.get("pptx.opc.oxml")
-    if not (ser and pk and spec and ox):
-        raise AnalysisError("anchor vanished: pptx.opc.{serialized,package,spec,oxml}")
-
-    # -- R1.1 --------------------------------------------------------------------------------------------
-    ctx.rule("R1.1", "every part gets exactly one content-type declaration and keeps its own type")
+def content_type_rules(ctx, prog, ser, pk, spec, ox, rid):
+    """The Default/Override decision of the writer and its inverse lookup in the reader (shared by C01 R1.1 and C02 R2.7)."""
     dct = prog.const(spec.assigns["default_content_types"], spec) if "default_content_types" in spec.assigns else None
     if not isinstance(dct, tuple):
         raise AnalysisError("default_content_types does not fold")
@@ -81,15 +60,15 @@ def run(ctx):
                 and dotted(n.targets[0].value) == name]
 
     if decision is None or not decision.orelse:
-        ctx.violation("R1.1", key + ":total", "some part gets neither a Default nor an Override", file=dao.file, line=dao.line)
+        ctx.violation(rid, key + ":total", "some part gets neither a Default nor an Override", file=dao.file, line=dao.line)
     else:
         d_st, o_st = stores_into(decision.body, "defaults"), stores_into(decision.orelse, "overrides")
         other = stores_into(lp.body, "defaults") + stores_into(lp.body, "overrides")
         cond_exit = any(isinstance(n, (ast.Continue, ast.Break)) for n in ast.walk(lp))
         if d_st and o_st and len(other) == len(d_st) + len(o_st) and not cond_exit:
-            ctx.ok("R1.1", key + ":total", sample={"decision": ast.unparse(decision.test), "then": "defaults[ext] = type", "else": "overrides[partname] = type"})
+            ctx.ok(rid, key + ":total", sample={"decision": ast.unparse(decision.test), "then": "defaults[ext] = type", "else": "overrides[partname] = type"})
         else:
-            ctx.violation("R1.1", key + ":total", "the Default/Override decision is not a two-way split that stores exactly one "
+            ctx.violation(rid, key + ":total", "the Default/Override decision is not a two-way split that stores exactly one "
                           "declaration per part", file=dao.file, line=decision.lineno)
         # values stored are the part's own
         loc = {}
@@ -116,9 +95,9 @@ def run(ctx):
         good = (d_st and src(d_st[0].value) == tgt + ".content_type" and src(d_st[0].targets[0].slice) == tgt + ".partname.ext"
                 and o_st and src(o_st[0].value) == tgt + ".content_type" and src(o_st[0].targets[0].slice) == tgt + ".partname")
         if good:
-            ctx.ok("R1.1", key + ":own-values", sample={"default": "(part.partname.ext, part.content_type)", "override": "(part.partname, part.content_type)"})
+            ctx.ok(rid, key + ":own-values", sample={"default": "(part.partname.ext, part.content_type)", "override": "(part.partname, part.content_type)"})
         else:
-            ctx.violation("R1.1", key + ":own-values", "declarations are not keyed by the part's own extension / name with its own type",
+            ctx.violation(rid, key + ":own-values", "declarations are not keyed by the part's own extension / name with its own type",
                           file=dao.file, line=decision.lineno)
         # conflict guard
         test_src = ast.unparse(decision.test)
@@ -132,18 +111,18 @@ def run(ctx):
         table_member = any(isinstance(n, ast.Compare) and isinstance(n.ops[0], ast.In) and dotted(n.comparators[0]) == "default_content_types"
                            for n in ast.walk(decision.test))
         if not table_member:
-            ctx.violation("R1.1", key + ":table", "Default is not restricted to the (extension, type) rows of default_content_types",
+            ctx.violation(rid, key + ":table", "Default is not restricted to the (extension, type) rows of default_content_types",
                           file=dao.file, line=decision.lineno)
         else:
-            ctx.ok("R1.1", key + ":table", nontrivial=False)
+            ctx.ok(rid, key + ":table", nontrivial=False)
         if not multi:
-            ctx.ok("R1.1", key + ":conflict", sample={"default_table": "a function extension -> type (%d rows)" % len(dct)})
+            ctx.ok(rid, key + ":conflict", sample={"default_table": "a function extension -> type (%d rows)" % len(dct)})
         elif guard:
-            ctx.ok("R1.1", key + ":conflict", sample={"extensions_with_several_types": multi, "writer": "falls back to Override when the "
+            ctx.ok(rid, key + ":conflict", sample={"extensions_with_several_types": multi, "writer": "falls back to Override when the "
                                                       "extension already has a different Default: " + test_src})
         else:
             e, v = sorted(multi.items())[0]
-            ctx.violation("R1.1", key + ":conflict", "extension %r has %d listed types (%s) and `defaults[ext] = content_type` is "
+            ctx.violation(rid, key + ":conflict", "extension %r has %d listed types (%s) and `defaults[ext] = content_type` is "
                           "unconditional: two .%s parts of different listed types share one Default and one of them is re-opened with "
                           "the other's content type" % (e, len(v), ", ".join(x.rsplit(".", 1)[-1] for x in v), e),
                           file=dao.file, line=d_st[0].lineno if d_st else decision.lineno,
@@ -156,9 +135,9 @@ def run(ctx):
                 sd[k.arg] = prog.const(k.value, dao.module)
         bad = {k: v for k, v in sd.items() if (k, v) not in set(dct)}
         if seeds and not bad:
-            ctx.ok("R1.1", key + ":seeded-defaults", sample={"seeded": sd})
+            ctx.ok(rid, key + ":seeded-defaults", sample={"seeded": sd})
         else:
-            ctx.violation("R1.1", key + ":seeded-defaults", "pre-seeded Defaults %s are not rows of the Default table: a part with that "
+            ctx.violation(rid, key + ":seeded-defaults", "pre-seeded Defaults %s are not rows of the Default table: a part with that "
                           "extension and another type would be misdeclared" % bad, file=dao.file, line=dao.line)
     # serialisation of the two dicts: every item is emitted
     xmlf = cti.methods.get("_xml")
@@ -169,13 +148,15 @@ def run(ctx):
             if isinstance(it, ast.Call) and dotted(it.func) in ("defaults.items", "overrides.items"):
                 callee = {"defaults.items": "add_default", "overrides.items": "add_override"}[dotted(it.func)]
                 names = [e.id for e in n.target.elts] if isinstance(n.target, ast.Tuple) else []
-                for c in _calls(n, callee):
-                    if [dotted(a) for a in c.args] == names:
+                for st in n.body:  # unconditional: a direct statement of the loop body
+                    if isinstance(st, ast.Expr) and isinstance(st.value, ast.Call) and (dotted(st.value.func) or "").split(".")[-1] == callee \
+                            and [dotted(a) for a in st.value.args] == names \
+                            and not any(isinstance(x, (ast.Continue, ast.Break)) for x in ast.walk(n)):
                         emitted.add(callee)
     if emitted == {"add_default", "add_override"}:
-        ctx.ok("R1.1", "_ContentTypesItem._xml", sample={"emits": "every (ext, type) as Default and every (partname, type) as Override"})
+        ctx.ok(rid, "_ContentTypesItem._xml", sample={"emits": "every (ext, type) as Default and every (partname, type) as Override"})
     else:
-        ctx.violation("R1.1", "_ContentTypesItem._xml", "not every computed Default / Override is emitted (found %s)" % sorted(emitted),
+        ctx.violation(rid, "_ContentTypesItem._xml", "not every computed Default / Override is emitted (found %s)" % sorted(emitted),
                       file=ser.relpath, line=xmlf.line if xmlf else 1)
     # CT_Types.add_default / add_override write the attributes the reader reads
     ctt = ox.classes.get("CT_Types")
@@ -191,9 +172,9 @@ def run(ctx):
                     okk = got == {k: params[i] for k, i in kwmap.items()}
         pairs[mname] = okk
     if all(pairs.values()):
-        ctx.ok("R1.1", "CT_Types.add_*", sample={"add_default": "extension, contentType", "add_override": "partName, contentType"})
+        ctx.ok(rid, "CT_Types.add_*", sample={"add_default": "extension, contentType", "add_override": "partName, contentType"})
     else:
-        ctx.violation("R1.1", "CT_Types.add_*", "add_default/add_override do not store (key, type) in that order: %s" % pairs,
+        ctx.violation(rid, "CT_Types.add_*", "add_default/add_override do not store (key, type) in that order: %s" % pairs,
                       file=ox.relpath, line=ctt.line if ctt else 1)
     # reader
     ctm = pk.classes.get("_ContentTypeMap")
@@ -211,9 +192,9 @@ def run(ctx):
                 order.append((m, k))
     param = gi.node.args.args[1].arg
     if order == [("self._overrides", param), ("self._defaults", param + ".ext")] and isinstance(gi.node.body[-1], ast.Raise):
-        ctx.ok("R1.1", "_ContentTypeMap.__getitem__", sample={"precedence": "Override by part name, then Default by extension, else KeyError"})
+        ctx.ok(rid, "_ContentTypeMap.__getitem__", sample={"precedence": "Override by part name, then Default by extension, else KeyError"})
     else:
-        ctx.violation("R1.1", "_ContentTypeMap.__getitem__", "reader does not resolve Override (by name) before Default (by extension): %s" % order,
+        ctx.violation(rid, "_ContentTypeMap.__getitem__", "reader does not resolve Override (by name) before Default (by extension): %s" % order,
                       file=gi.file, line=gi.line)
     built = {}
     for n in walk_own(fx.node):
@@ -233,10 +214,10 @@ def run(ctx):
     init_ok = init is not None and [a.arg for a in init.node.args.args][1:3] == ["overrides", "defaults"] and \
         stored_from_param(init, "_overrides") == "overrides" and stored_from_param(init, "_defaults") == "defaults"
     if norm == expn and ret_ok and init_ok:
-        ctx.ok("R1.1", "_ContentTypeMap.from_xml", sample={"overrides": "lower-cased PartName -> ContentType over every Override",
+        ctx.ok(rid, "_ContentTypeMap.from_xml", sample={"overrides": "lower-cased PartName -> ContentType over every Override",
                                                            "defaults": "lower-cased Extension -> ContentType over every Default"})
     else:
-        ctx.violation("R1.1", "_ContentTypeMap.from_xml", "reader maps are not (lower-cased key -> ContentType) over all Override / Default "
+        ctx.violation(rid, "_ContentTypeMap.from_xml", "reader maps are not (lower-cased key -> ContentType) over all Override / Default "
                       "elements in (overrides, defaults) order: %s ret=%s init=%s" % (norm, ret_ok, init_ok), file=fx.file, line=fx.line)
     # case-insensitive dict: the three accessors lower the key
     sh = prog.modules.get("pptx.opc.shared")
@@ -251,10 +232,37 @@ def run(ctx):
             and isinstance(c.args[0], ast.Call) and isinstance(c.args[0].func, ast.Attribute) and c.args[0].func.attr == "lower"
             and dotted(c.args[0].func.value) == f.node.args.args[1].arg for c in ast.walk(f.node))
     if all(lowered.values()):
-        ctx.ok("R1.1", "CaseInsensitiveDict", sample={"lowered_in": sorted(lowered)})
+        ctx.ok(rid, "CaseInsensitiveDict", sample={"lowered_in": sorted(lowered)})
     else:
-        ctx.violation("R1.1", "CaseInsensitiveDict", "lookup, membership and store do not all lower-case the key: %s" % lowered,
+        ctx.violation(rid, "CaseInsensitiveDict", "lookup, membership and store do not all lower-case the key: %s" % lowered,
                       file=sh.relpath, line=cid.line)
+
+
+
+def run(ctx):
+    from checks.c10 import load
+
+    prog, S, M = load(ctx.repo)
+    ctx.level = "other"
+    ctx.trusted = ["CPython ast", "constant folding of the Default table", "zipfile writes the bytes it is given"]
+    ctx.explanation = (
+        "The round trip is decomposed into the tables and traversals it rests on: the Default/Override decision and its inverse "
+        "lookup, the visit-once idiom of the two generators, the field-by-field serialisation of relationships and the "
+        "pass-through of (name, type, payload) through the loader. Each is decided from the source; the behaviour itself "
+        "(byte identity) is not.")
+    ctx.not_decided = ["byte identity of non-XML payloads at run time", "XML equivalence of re-serialised parts",
+                       "idempotence of the second save", "posixpath arithmetic of relative references (C19)"]
+
+    ser = prog.modules.get("pptx.opc.serialized")
+    pk = prog.modules.get("pptx.opc.package")
+    spec = prog.modules.get("pptx.opc.spec")
+    ox = prog.modules.get("pptx.opc.oxml")
+    if not (ser and pk and spec and ox):
+        raise AnalysisError("anchor vanished: pptx.opc.{serialized,package,spec,oxml}")
+
+    # -- R1.1 --------------------------------------------------------------------------------------------
+    ctx.rule("R1.1", "every part gets exactly one content-type declaration and keeps its own type")
+    content_type_rules(ctx, prog, ser, pk, spec, ox, "R1.1")
 
     # -- R1.2 --------------------------------------------------------------------------------------------
     ctx.rule("R1.2", "each part and relationship exactly once; the writer writes all of them")
